@@ -423,3 +423,10 @@ CLAIMS["C16"]["note"] += (" TestDialBackSockets: IPv4 loopback with AllowPrivate
 CLAIMS["C02"]["text"] += (" Truncation is a generated cut position: the byte stream under a Noise or TLS session ends with a FIN between frames, inside the length prefix or record header, after a complete prefix, or anywhere inside a frame body or tag; a cut strictly inside a frame must end the reader's Read sequence with an error other than io.EOF (only a cut exactly between frames over a byte pipe may look like a clean end). "
     "The same is checked over the real WebSocket transport through a frame-parsing TCP proxy that delivers k messages of one direction and then ends the TCP stream without a close frame, at or inside a message boundary: there io.EOF is never acceptable, and the reader receives at most the plaintext of the messages that arrived whole.")
 CLAIMS["C02"]["note"] += (" The WebSocket cut test uses loopback sockets (a stall is inconclusive) and assumes one security-layer frame is one WebSocket message, with sizes measured by the proxy. pnet is not truncated (no framing, not an authenticated channel).")
+
+CLAIMS["C07"]["text"] += (" The resource-scope clause is also checked over generated histories in which the resource manager itself changes (TestScopes, TestScopesSmall): on 2-4 hosts, with streams that stay open across steps, the application changes protocol, peer and service scope limits at run time, unused scopes are collected (on-demand hook or a virtual minute), and peers disconnect and return. "
+    "After every step every scope's Stat() equals the harness' own count of open streams on that host, opens are refused only where a limit the harness set is full, and a returning peer's stream reaches its handler and is charged again.")
+CLAIMS["C07"]["note"] += (" In TestScopes 'charged' is read as counted by Stat() and against the scope's stream limit; memory, connection and FD limits and the system, transient and per-peer sub-scopes stay unlimited; only BasicHost is used (BlankHost ignores scope refusals); one open at a time, steps applied at quiescence; rcmgr.VerifGC (verif build tag) is trusted to run exactly the once-a-minute job.")
+CLAIMS["C13"]["text"] += (" Histories include other components' use of the peerstore's address streams (AddrStream subscribers on the remote peer or a bystander, subscribing at any point incl. right after the recently-connected lifetime expired and before the address book collects the entry; consumers idle, eager or reading at steps; cancel). "
+    "Identify-waits must still be released by their deadlines, streams may carry only correctly attributed addresses, and a case in which identify or the address book waits for a lock that can never be released fails.")
+CLAIMS["C13"]["note"] += (" A frozen case is recognised from outside the bubble by goroutine states (TestWatcherSelfCheck guards the runtime dump format; if that broke, a freeze would end as an inconclusive hang, not a pass). The harness never waits for virtual time under a lock of identify or the peerstore, so a freeze is a stall of the code under test.")
